@@ -12,13 +12,15 @@ import logging, os, random, re, time, urllib.parse
 from core.wire import line, parse_reply, Atom, atom
 
 ID = "C24"
-LEAN_TARGETS = ["TornadoModel.C24.Props"]
+LEAN_TARGETS = ["TornadoModel.C24.Props", "TornadoModel.C24.SpecLink"]
 THEOREMS = [
     "TornadoModel.C24.issued_accepted",
     "TornadoModel.C24.decode_issued",
     "TornadoModel.C24.decode_issue_v1",
     "TornadoModel.C24.decode_issue_v2",
     "TornadoModel.C24.accept_iff",
+    "TornadoModel.C24.check_eq_spec",
+    "TornadoModel.C24.decode_token_now",
     "TornadoModel.C24.decode_total",
     "TornadoModel.C24.malformed_refused",
     "TornadoModel.C24.no_cookie_needs_fresh",
@@ -55,9 +57,9 @@ RULE = ("cookie/token pairs: issued (v1/v2), re-masked, cross-version, other ses
 EXHAUSTIVE = {"quick": False, "thorough": False}
 CLAUSES = {
     "a non-GET/HEAD/OPTIONS request reaches the handler iff it carries a token that decodes to the same non-empty "
-    "secret as the _xsrf cookie": "accept_iff + no_cookie_needs_fresh + pick_form/pick_h1/pick_h2 (model); the link "
-                                  "model = Spec.accepts is check_eq_spec_goal — tie only: Spec.accepts is applied to "
-                                  "the real implementation as the oracle (e2e stream); GET/HEAD/OPTIONS: tie only",
+    "secret as the _xsrf cookie": "check_eq_spec (model accepts <=> Spec.accepts, unless the token decodes to the "
+                                  "server's own fresh randomness) + accept_iff + no_cookie_needs_fresh + "
+                                  "pick_form/pick_h1/pick_h2; reaching the handler, GET/HEAD/OPTIONS: tie only",
     "every token the application issues for a cookie (any version, any mask) is accepted with that cookie":
         "issued_accepted + decode_issued (every secret, mask, timestamp, version pair); session form "
         "session_issued_accepted_goal — tie only (issue stream)",
@@ -184,7 +186,7 @@ def _mutations(base, alphabet_bytes):
 def gen_cases(rng, tier):
     n = {"quick": 1, "thorough": 12, "search": 3}[tier]
     # ---- decode stream (function level)
-    for _ in range(1500 * n):
+    for _ in range((1000 if tier == "quick" else 1500 * n)):
         s = _token_text(rng, _secret(rng)) if rng.random() < 0.75 else _arb(rng)
         if "\n" in s or "\r" in s:
             continue
@@ -235,14 +237,16 @@ def gen_cases(rng, tier):
     bases = [(mk_v2(secret, mask, "5"), mk_v2(secret, b"\x01\x02\x03\x04", "7")), (mk_v1(b"\xab\xcd"), mk_v1(b"\xab\xcd")),
              (mk_v1(b"\xab\xcd"), mk_v2(b"\xab\xcd", mask, "5"))]
     allbytes = list(range(256)) if tier != "search" else rng.sample(range(256), 40)
-    for cookie, tok in bases:
-        for m in _mutations(tok, allbytes):
+    for bi, (cookie, tok) in enumerate(bases):
+        # quick: the two same-version pairs completely (every position x all 256 byte values), the cross-version pair sampled
+        vals = allbytes if tier == "thorough" or bi < 2 else sorted(rng.sample(range(256), 24))
+        for m in _mutations(tok, vals):
             yield {"kind": "e2e", "method": "POST", "ver": 2, "cookie": cookie, "body_bytes": m.hex(), "body": None,
                    "query": None, "h1": None, "h2": None, "fresh": "11" * 16, "mask": "01020304", "mut": "token"}
     # mutated cookie (header-safe bytes only), intact token
     safe = [ord(ch) for ch in SAFE]
     for cookie, tok in bases[:2]:
-        for m in _mutations(cookie, safe if tier == "thorough" else safe[::3]):
+        for m in _mutations(cookie, safe if tier == "thorough" else safe[::4]):
             if any(ch in b' ;,"\\' for ch in m):
                 continue
             yield {"kind": "e2e", "method": "POST", "ver": 2, "cookie": m.decode("latin-1"), "body": tok, "query": None,
